@@ -444,5 +444,7 @@ pub fn run(tier: Tier, seed: u64) -> i32 {
     report.sample("rng-answer", json!({"site": "server challenge refresh after a REJECTED reconnect attempt", "script": "one-hot: 16 zero bytes except byte 9 = 0x80", "expected": "reconnect_challenge_data() differs from the all-zero answer's value and byte 9 varies"}));
     report.space("14 scripted drawing sites + matrix card digits; every draw-byte position of every site");
     report.assume("the statistical quality of rand::ThreadRng is trusted (out of this family); the free-running two-thread pass is sampling and only supplements");
+    report.set("exhaustive", json!(false));
+    report.cap_hit("RNG answers come from a finite alphabet per site; the statistical quality of the RNG is not decided");
     report.finish()
 }
